@@ -65,9 +65,20 @@ def rt_type(rng, depth, top=False):
     r = rng.below(20)
     if depth <= 0 or r < 9:
         return TG.rand_prim(rng)
-    if r < 11: return TG.T("ptr", e=TG.rand_prim(rng) if rng.chance(0.5) else rt_type(rng, depth - 1, top=True))
-    if r < 14: return TG.T("slice", e=TG.rand_prim(rng) if rng.chance(0.6) else rt_type(rng, depth - 1, top=True))
-    if r < 15: return TG.T("array", n=1 + rng.below(3), e=TG.rand_prim(rng))
+    def small_container():
+        k = rng.below(3)
+        if k == 0: return TG.T("array", n=1 + rng.below(3), e=TG.rand_prim(rng))
+        if k == 1: return TG.T("slice", e=TG.rand_prim(rng))
+        return TG.T("map", e=TG.rand_prim(rng))
+    if r < 11:
+        q = rng.below(10)
+        return TG.T("ptr", e=TG.rand_prim(rng) if q < 4 else (rt_type(rng, depth - 1, top=True) if q < 7 else small_container()))
+    if r < 14:
+        q = rng.below(10)
+        return TG.T("slice", e=TG.rand_prim(rng) if q < 6 else (rt_type(rng, depth - 1, top=True) if q < 9 else TG.T("array", n=1 + rng.below(2), e=TG.rand_prim(rng))))
+    if r < 15:
+        q = rng.below(10)
+        return TG.T("array", n=1 + rng.below(3), e=TG.rand_prim(rng) if q < 6 else (rt_type(rng, depth - 1, top=True) if q < 9 else TG.T("ptr", e=TG.rand_prim(rng))))
     if r < 18: return TG.T("map", e=TG.rand_prim(rng) if rng.chance(0.6) else rt_type(rng, depth - 1, top=True))
     if r < 19: return TG.T("ptr", e=TG.T("regexp"))
     return rt_type(rng, depth - 1, top=True)
